@@ -98,6 +98,11 @@ unsafe fn scan(ptr: *mut u8, size: usize, via_realloc: bool) {
 unsafe impl GlobalAlloc for Mon {
     unsafe fn alloc(&self, layout: Layout) -> *mut u8 {
         let _ = ALLOCATED.try_with(|a| a.set(a.get() + layout.size() as u64));
+        // during a scan fresh blocks are handed out zeroed, so stale residue of earlier frees can never
+        // be mistaken for data the monitored code wrote
+        if SCAN_ACTIVE.try_with(|s| s.get()).unwrap_or(false) {
+            return System.alloc_zeroed(layout);
+        }
         System.alloc(layout)
     }
     unsafe fn alloc_zeroed(&self, layout: Layout) -> *mut u8 {
@@ -106,6 +111,11 @@ unsafe impl GlobalAlloc for Mon {
     }
     unsafe fn dealloc(&self, ptr: *mut u8, layout: Layout) {
         scan(ptr, layout.size(), false);
+        // while a scan is active, wipe every block after it has been inspected so that residue of one
+        // freed block (e.g. the exempt upstream pad buffers) cannot resurface inside a later allocation
+        if SCAN_ACTIVE.try_with(|s| s.get()).unwrap_or(false) {
+            core::ptr::write_bytes(ptr, 0, layout.size());
+        }
         System.dealloc(ptr, layout)
     }
     unsafe fn realloc(&self, ptr: *mut u8, layout: Layout, new_size: usize) -> *mut u8 {
@@ -114,10 +124,11 @@ unsafe impl GlobalAlloc for Mon {
         if active {
             // emulate a moving realloc so the old block can be inspected while still valid
             let new_layout = Layout::from_size_align_unchecked(new_size, layout.align());
-            let new_ptr = System.alloc(new_layout);
+            let new_ptr = System.alloc_zeroed(new_layout);
             if !new_ptr.is_null() {
                 core::ptr::copy_nonoverlapping(ptr, new_ptr, layout.size().min(new_size));
                 scan(ptr, layout.size(), true);
+                core::ptr::write_bytes(ptr, 0, layout.size());
                 System.dealloc(ptr, layout);
             }
             return new_ptr;
